@@ -731,6 +731,33 @@ func genHnd(g *lp.Gen) {
 			ln = g.PickInt(1, L-1, L)
 		}
 		op := g.PickInt(1, 2)
+		if g.Chance(1, 4) { // a fragmented message within the limit (2 or 3 frames, possibly a ping in between)
+			parts := 2 + g.Intn(2)
+			var body []byte
+			if op == 1 {
+				body = []byte(strings.Repeat("a", g.PickInt(parts, 7, L)))
+			} else {
+				body = randBytes(g, g.PickInt(parts, 7, L))
+			}
+			if len(body) < parts {
+				body = append(body, make([]byte, parts)...)
+			}
+			if len(body) > L {
+				body = body[:L]
+			}
+			for j := 0; j < parts; j++ {
+				a, b := j*len(body)/parts, (j+1)*len(body)/parts
+				fop := 0
+				if j == 0 {
+					fop = op
+				}
+				s.frame(g, fspec{fin: j == parts-1, op: fop, masked: role == "server", payload: body[a:b]})
+				if j < parts-1 && g.Chance(1, 4) {
+					s.frame(g, fspec{fin: true, op: 9, masked: role == "server", payload: randBytes(g, 3)})
+				}
+			}
+			continue
+		}
 		if ln > 200 || ln == 0 {
 			s.frame(g, fspec{fin: true, op: 2, masked: role == "server", patN: ln, patP: g.Intn(256)}) // symbolic payloads are not text
 		} else if op == 1 {
